@@ -14,6 +14,19 @@ BIN = {"Add": "add", "Sub": "sub", "Mul": "mul", "Div": "div", "Rem": "rem", "Sh
        "MulUnchecked": "mul"}
 
 
+def _apply_projs(T, t, proj, depth):
+    for p in proj:
+        if p["k"] == "field":
+            t = ("field", t, p.get("i"))
+        elif p["k"] == "index":
+            t = ("idx", t, T.of_local(p["local"], (), depth + 1))
+        elif p["k"] == "constindex":
+            t = ("idx", t, ("const", p.get("offset")))
+        else:
+            t = ("proj", t, p["k"])
+    return t
+
+
 class Terms:
     def __init__(self, F, inst):
         self.F = F
@@ -30,25 +43,17 @@ class Terms:
             return self.var(l)
         proj = [p for p in proj if p["k"] != "deref"]
         if l != 0 and l <= self.inst["arg_count"] and not self.body.defs.get(l):
-            t = self.var(l)
-            for p in proj:
-                t = ("field", t, p.get("i")) if p["k"] == "field" else ("proj", t, p["k"])
-            return t
+            return _apply_projs(self, self.var(l), proj, depth)
         d = self.body.single_def(l)
         if d is None:
-            t = self.var(l)
-            for p in proj:
-                t = ("field", t, p.get("i")) if p["k"] == "field" else ("proj", t, p["k"])
-            return t
+            return _apply_projs(self, self.var(l), proj, depth)
         if d[2] == "call":
             t = d[3]
             fn = t["func"].get("fn", {})
             name = fn.get("method") or (fn.get("res_path") or fn.get("path") or "?").rsplit("::", 1)[-1]
             args = tuple(self.of_operand(a, depth + 1) for a in t["args"])
             r = ("call", name) + args
-            for p in proj:
-                r = ("field", r, p.get("i")) if p["k"] == "field" else ("proj", r, p["k"])
-            return r
+            return _apply_projs(self, r, proj, depth)
         rv = d[3]["rv"]
         k = rv["k"]
         if k == "use":
@@ -68,11 +73,11 @@ class Terms:
         elif k == "ref":
             pl = rv["place"]
             inner = self.of_local(pl["l"], pl["p"], depth + 1)
+        elif k == "unop" and rv["op"] == "Neg":
+            inner = ("neg", self.of_operand(rv["a"], depth + 1))
         else:
             inner = ("rv", k, l)
-        for p in proj:
-            inner = ("field", inner, p.get("i")) if p["k"] == "field" else ("proj", inner, p["k"])
-        return inner
+        return _apply_projs(self, inner, proj, depth)
 
     def of_operand(self, op, depth=0):
         if op["k"] == "const":
@@ -183,6 +188,10 @@ def fmt(t):
         return "%s.%s" % (fmt(t[1]), t[2])
     if k == "proj":
         return "%s<%s>" % (fmt(t[1]), t[2])
+    if k == "idx":
+        return "%s[%s]" % (fmt(t[1]), fmt(t[2]))
+    if k == "neg":
+        return "-%s" % fmt(t[1])
     if k == "rv":
         return "%s#%s" % (t[1], t[2])
     return str(t)
@@ -205,3 +214,39 @@ def root_local(T, op, depth=0):
         pl["k"] = "copy"
         return root_local(T, pl, depth + 1)
     return None
+
+
+
+def poly(t, atom=None):
+    """Expand a term into a polynomial {sorted tuple of atom names: coefficient} over opaque atoms (indexed reads, calls, variables)."""
+    atom = atom or fmt
+    k = t[0]
+    if k == "const" and isinstance(t[1], (int, float)) and not isinstance(t[1], bool):
+        return {(): Fraction(t[1])}
+    if k in ("add", "sub"):
+        a, b = poly(t[1], atom), poly(t[2], atom)
+        if a is None or b is None:
+            return None
+        out = dict(a)
+        for m, c in b.items():
+            out[m] = out.get(m, 0) + (c if k == "add" else -c)
+        return {m: c for m, c in out.items() if c != 0}
+    if k == "neg":
+        a = poly(t[1], atom)
+        return None if a is None else {m: -c for m, c in a.items()}
+    if k == "mul":
+        a, b = poly(t[1], atom), poly(t[2], atom)
+        if a is None or b is None:
+            return None
+        out = {}
+        for m1, c1 in a.items():
+            for m2, c2 in b.items():
+                m = tuple(sorted(m1 + m2))
+                out[m] = out.get(m, 0) + c1 * c2
+        return {m: c for m, c in out.items() if c != 0}
+    if k == "div":
+        a, b = poly(t[1], atom), poly(t[2], atom)
+        if a is not None and b is not None and list(b.keys()) == [()]:
+            return {m: c / b[()] for m, c in a.items()}
+        return {(atom(t),): Fraction(1)}
+    return {(atom(t),): Fraction(1)}
